@@ -20,6 +20,7 @@ CONSTANTS MaxNodes = {maxn}
           Hist = {hist}
           MaxHist = {maxh}
           AskAt = {askat}
+          Sim = {sim}
           Dev = {dev}
 {view}
 CONSTRAINT Bound
@@ -37,9 +38,9 @@ CHECK_DEADLOCK FALSE
 """
 
 
-def gen_cfg(fam, maxn=2, maxr=0, labels=L_A, p="one", q="none", r="none", types=T1, canon=True, hist=False, maxh=8, askat=1,
+def gen_cfg(fam, maxn=2, maxr=0, labels=L_A, p="one", q="none", r="none", types=T1, canon=True, hist=False, maxh=8, askat=1, sim=False,
             dev="{}", view="VIEW View", emit="ACTION_CONSTRAINT EmitAsk", inv=LAWS):
-    return GEN.format(askat=askat, fam=fam, maxn=maxn, maxr=maxr, labels=labels, p=p, q=q, r=r, types=types, canon="TRUE" if canon else "FALSE",
+    return GEN.format(askat=askat, sim="TRUE" if sim else "FALSE", fam=fam, maxn=maxn, maxr=maxr, labels=labels, p=p, q=q, r=r, types=types, canon="TRUE" if canon else "FALSE",
                       hist="TRUE" if hist else "FALSE", maxh=maxh, dev=dev, view=view, emit=emit, inv=inv)
 
 
